@@ -281,6 +281,7 @@ structure ImplComparison where
   psc : F64.Bits     -- after multiplying both samples by 2^k
   delta : String
   str : String
+  warn : String      -- canonical warning tag of the harness ("-", "need:ge:4", "err:…")
 
 /-- "a difference is shown exactly when p does not exceed the threshold"; then the documented
 cases '0.00%' (equal centres), '?' (old centre 0), else (new/old − 1)·100 with two decimals -/
@@ -356,10 +357,22 @@ def judgeCompare (a : String) (v1 v2 : List F64.Bits) (alpha old new : F64.Bits)
       | .fin q => okIf (rabs (q - want) ≤ tiny12) "not-the-permutation-p"
       | _ => "not-finite"
     else "na"
+  -- small-sample warning: present exactly when p > α and both sizes are below the least n with
+  -- 2/C(2n,n) ≤ α (">9" when no n ≤ 9 qualifies)
+  let warnV :=
+    if a != "nothing" || i.warn.startsWith "err" then "ok" else
+    match ev i.p, ev i.alpha with
+    | .fin q, .fin al =>
+      let need := match (List.range 9).find? (fun k => minP (k + 1) ≤ al) with
+        | some k => ("ge", k + 1)
+        | none => ("gt", 10)
+      let want := if q > al && i.n1 < need.2 && i.n2 < need.2 then s!"need:{need.1}:{need.2}" else "-"
+      okIf (i.warn == want) "wrong-sample-size-warning"
+    | _, _ => "ok"
   let alphaV := if a == "exact" then "ok" else okIf (closeOrEqual true i.alpha alpha) "threshold-not-carried"
   let (shown, delta) := judgeDelta i.p i.alpha old new i.delta
   showVerdicts [("n", nOK), ("prange", prange), ("sym", sym), ("shuf", shuf), ("scale", scale), ("exact", exact),
-                ("alpha", alphaV), ("shown", shown), ("delta", delta), ("str", judgeStr i.p i.n1 i.n2 i.str)]
+                ("alpha", alphaV), ("warn", warnV), ("shown", shown), ("delta", delta), ("str", judgeStr i.p i.n1 i.n2 i.str)]
 
 def judgeRenderCmp (p alpha : F64.Bits) (n1 n2 : Nat) (old new : F64.Bits) (delta str : String) : String :=
   let (shown, d) := judgeDelta p alpha old new delta
